@@ -184,7 +184,8 @@ def main_check(pid, tier, seed):
             print(f'  {k}={agg["counters"][k]}')
     for kf in known:
         if kf.get('status', 'open') == 'open':
-            n = len(absorbed.get(kf['id'], []))
+            ws = absorbed.get(kf['id'], [])
+            n = sum(agg['counters'].get('viol.' + k, 0) for k in {w.get('klass') for w in ws})
             print(f'KNOWN-FINDING: property={pid} {kf["id"]} {kf["summary"]} (witnesses this run: {n})')
     if fresh:
         seen = set()
